@@ -74,7 +74,9 @@ def run(ctx):
         for m in LAYER_ACCESSORS:
             check_hash_range_guard(ctx, dbg, "nested::Layer::" + m, "hash", layer_n_hash_pred(dbg), "self.n_hash", "hash-guard", key="nested::Layer::%s:hash[dbg]" % m)
     ctx.not_decided("centre/offset/path/grid points hash back to their cell; hash_with_dxdy offsets in [0,1]; recovery within 1e-13 rad; depth0_bits rare branches (float numerics)")
+    from rules import scale
+    scale.run(ctx, ctx.crate("rel"), list(range(30)))
     from rules import cancellation
-    cancellation.check(ctx, ctx.crate("rel"), ['nested::Layer::center', 'nested::Layer::sph_coo', 'nested::Layer::vertices', 'nested::Layer::vertex', 'nested::Layer::hash_with_dxdy', 'nested::Layer::grid', 'nested::Layer::path_along_cell_edge', 'nested::Layer::path_along_cell_side'], floor=26)
+    cancellation.check(ctx, ctx.crate("rel"), ['nested::Layer::hash', 'nested::Layer::center', 'nested::Layer::sph_coo', 'nested::Layer::vertices', 'nested::Layer::vertex', 'nested::Layer::hash_with_dxdy', 'nested::Layer::grid', 'nested::Layer::path_along_cell_edge', 'nested::Layer::path_along_cell_side'], floor=26)
     from rules import controls
     controls.guard_controls(ctx)
